@@ -35,6 +35,12 @@ type C19Scenario struct {
 	core.Base
 	Store StoreCfg `json:"store"`
 	Msgs  []C19Msg `json:"msgs"`
+	// Split (in-memory and SQLite stores; -1 = off): a second materializer is fed by Materializer.Replay in two
+	// legs - from the oldest offset when the first Split messages are in the log, then from its own LastOffset
+	// once all are. It must end up exactly where applying the same stored events one by one leads (same state,
+	// same LastOffset, an error exactly where Apply rejects an event), and the bus must still take publishes
+	// after a replay that an unappliable event cut short.
+	Split int `json:"split"`
 }
 
 var c19Keys = []string{"k", "a/b", "ключ", "with space", "/", "k\"q", "0"}
@@ -57,6 +63,17 @@ var c19Raw = []string{``, `null`, `{}`, `[]`, `"x"`, `{"headers":null}`, `{"head
 func genC19(rt *rapid.T) core.Scenario {
 	sc := &C19Scenario{Store: StoreCfg{Kind: rapid.SampledFrom([]string{"mem", "mem", "sqlite", "ds"}).Draw(rt, "store")}}
 	n := rapid.IntRange(1, 12).Draw(rt, "nMsgs")
+	if rapid.IntRange(0, 5).Draw(rt, "long") == 5 {
+		n = rapid.IntRange(10, 30).Draw(rt, "nMsgsLong")
+	}
+	sc.Split = -1
+	if sc.Store.Kind != "ds" && rapid.IntRange(0, 2).Draw(rt, "twoLegs") > 0 {
+		sc.Split = rapid.IntRange(0, n).Draw(rt, "split")
+	}
+	if sc.Store.Kind == "sqlite" {
+		sc.Store.StreamBatch = rapid.SampledFrom([]int{0, 0, 2, 5}).Draw(rt, "streamBatch")
+		sc.Store.InMemory = rapid.IntRange(0, 2).Draw(rt, "inMemory") == 2
+	}
 	for i := 0; i < n; i++ {
 		m := C19Msg{Helper: rapid.IntRange(0, 7).Draw(rt, "helper"), Entity: rapid.IntRange(0, 4).Draw(rt, "entity"),
 			Key: rapid.SampledFrom(c19Keys).Draw(rt, "key"), V: rapid.IntRange(0, 9).Draw(rt, "v")}
@@ -311,7 +328,44 @@ func (sc *C19Scenario) Execute(t *testing.T) *core.Outcome {
 		bus := eventbus.New(eventbus.WithStore(store))
 		ctx := context.Background()
 		var built []*state.ChangeMessage
-		for _, m := range sc.Msgs {
+		// ---- C: a materializer fed by Replay in two legs against one fed event by event
+		fed, ref := newC18Mat(false), newC18Mat(false)
+		leg := func(name string) bool {
+			from := fed.m.LastOffset()
+			if from != ref.m.LastOffset() {
+				out.HarnessErr = "reference materializer out of step"
+				return false
+			}
+			evs, _, err := store.Read(ctx, from, 0)
+			if err != nil {
+				out.HarnessErr = "read: " + err.Error()
+				return false
+			}
+			var refErr error
+			for _, e := range evs {
+				if refErr = ref.m.Apply(e); refErr != nil {
+					break
+				}
+			}
+			rec.Add("replay-leg", len(evs), 0, fmt.Sprint(refErr != nil))
+			gotErr := fed.m.Replay(ctx, bus, from)
+			if (gotErr != nil) != (refErr != nil) {
+				out.V("replay-vs-apply", "%s leg: Materializer.Replay from %q returned %v; applying the same %d stored events one by one returns %v", name, from, gotErr, len(evs), refErr)
+				return false
+			}
+			if a, b := fed.snapshot(), ref.snapshot(); !reflect.DeepEqual(a, b) || fed.m.LastOffset() != ref.m.LastOffset() {
+				out.V("replay-vs-apply", "%s leg (store %s): Materializer.Replay from %q over %d events left LastOffset %q and state %v; applying the same stored events one by one leaves LastOffset %q and state %v", name, sc.Store, from, len(evs), fed.m.LastOffset(), a, ref.m.LastOffset(), b)
+				return false
+			}
+			if gotErr != nil {
+				out.Probe("replay-cut-short-by-rejected-event")
+			}
+			return true
+		}
+		for i, m := range sc.Msgs {
+			if i == sc.Split && !leg("first") {
+				return
+			}
 			msg, cm, err := m.build()
 			if err != nil {
 				out.HarnessErr = "helper failed on a JSON-encodable entity: " + err.Error()
@@ -319,6 +373,9 @@ func (sc *C19Scenario) Execute(t *testing.T) *core.Outcome {
 			}
 			built = append(built, cm)
 			publishMsg(bus, msg)
+		}
+		if sc.Split >= 0 && !leg("second") {
+			return
 		}
 		stored, _, err := store.Read(ctx, eventbus.OffsetOldest, 0)
 		if err != nil || len(stored) != len(sc.Msgs) {
@@ -426,6 +483,11 @@ func (sc *C19Scenario) Execute(t *testing.T) *core.Outcome {
 	out.Rep = rep
 	if out.HarnessErr == "" {
 		out.HarnessErr = herr
+		if call, hung := storeHang(rep); hung {
+			out.HarnessErr = ""
+			out.V("store-call-never-returned", "a call into the store did not return although nothing else was runnable and a minute of simulated time had passed: %s", call)
+			return out
+		}
 	}
 	if rep == nil {
 		return out
